@@ -78,3 +78,14 @@ Theorem C02_se2_log_trunc : forall g0 g1 g2 g3,
   - (eps2 * eps2 / 600) <= K_L th - T_L (th * th) <= 0.
 Proof. exact Proofs.C02_TruncLog.se2_log_trunc. Qed.
 Print Assumptions C02_se2_log_trunc.
+
+(* SO3 log below the switch (canonical hemisphere, qw > 0) *)
+Theorem C02_so3_log_trunc : forall g0 g1 g2 g3,
+  so3_valid [g0; g1; g2; g3] -> 0 < g3 -> 0 < g0*g0 + g1*g1 + g2*g2 < eps2 ->
+  let n2 := g0*g0 + g1*g1 + g2*g2 in let n := sqrt n2 in
+  Gen.SO3.so3_log_p1 [g0; g1; g2; g3] = Proofs.C02_TruncLog.so3_log_form (Proofs.C02_TruncLog.T_S n2 g3) g0 g1 g2 /\
+  Gen.SO3.so3_log_p0 [g0; g1; g2; g3] = Proofs.C02_TruncLog.so3_log_form (Proofs.C02_TruncLog.K_S n g3) g0 g1 g2 /\
+  Gen.SO3.so3_log_c1 [g0; g1; g2; g3] /\
+  0 <= Proofs.C02_TruncLog.K_S n g3 - Proofs.C02_TruncLog.T_S n2 g3 <= eps2 * eps2.
+Proof. exact Proofs.C02_TruncLog.so3_log_trunc. Qed.
+Print Assumptions C02_so3_log_trunc.
